@@ -522,12 +522,18 @@ def c13_streams(ctx):
     metas = "()[]{}\\?*+|.^$ab1 \t"
     for i in range(ctx.scale(900, 12000)):
         p = "".join(r.choice(metas) for _ in range(r.randint(1, 4)))
+        overlap = r.random() < 0.3
+        if overlap:
+            # a literal whose start overlaps itself (aab, ((a, ..*): an occurrence running into a partial one
+            p = p[0] * r.randint(1, 2) + p
         f = r.choice(["q", "q", "qi", "qm", "qs", "qx", "qms", "iq"])
         parts = []
         for _ in range(r.randint(0, 3)):
             parts.append("".join(r.choice("ab(. ") for _ in range(r.randint(0, 2))))
             parts.append(p if r.random() < 0.7 else (p.upper() if "i" in f else p[:-1]))
         s = "".join(parts)
+        if overlap:
+            s = r.choice(["", "x"]) + p[:r.randint(1, len(p) - 1)] + p + r.choice(["", p[:1], "b"])
         R = r.choice(["$1", "\\", "$", "x", "", "$0\\$", "\\n"])
         cs = [Case(p, f, "is_match", s), Case(p, f, "replace", s, R), Case(p, f, "tokenize", s), Case(p, f, "analyze", s)]
         gs.append(Group(cs, {"features": set(), "input": s, "R": R}))
@@ -861,7 +867,8 @@ def c17_streams(ctx):
     for p, why in [("a*?", "reluctant quantifier"), ("a+?b", "reluctant quantifier"), ("a{1,2}?", "reluctant quantifier"), ("(?:a)", "non-capturing group"),
                    ("(a)\\1", "back-reference"), ("\\$", "escape \\$"), ("a??", "reluctant quantifier")]:
         gs.append(Group([Case(p, "", "compile", dialect="xs"), Case(p, "", "compile", dialect="xp")], {"features": set(), "input": "", "reject": why}))
-    gs.append(Group([Case("a", "q", "compile", dialect="xs"), Case("a", "q", "compile", dialect="xp")], {"features": set(), "input": "", "reject": "flag q"}))
+    for fq in ["q", "q;", "q;g", "iq;", "sqx;k", "qi"]:
+        gs.append(Group([Case("a", fq, "compile", dialect="xs"), Case("a", fq, "compile", dialect="xp")], {"features": set(), "input": "", "reject": "flag q"}))
     # ^ and $ are ordinary characters in XSD
     for p, s, e in [("^a$", "^a$", "T"), ("^a$", "a", "F"), ("a^", "a^", "T"), ("$", "x$y", "T"), ("^", "", "F"), ("[$^]+", "^$", "T"), ("^*", "^^", "T")]:
         gs.append(Group([Case(p, "", "is_match", s, dialect="xs")], {"features": set(), "input": s, "literal_anchor": e}))
